@@ -36,6 +36,12 @@ def check_upgrade(chk, c, r, suite, small):
     return None
 
 
+FAMILIES_00 = ["Red Hat Enterprise Linux", "Red Hat Enterprise Linux Server", "Subscription Asset Manager", "Subscription Asset Manager 2",
+               "Red Hat Storage", "Red Hat Storage Software Appliance", "Red Hat Storage Server", "JBEAP", "JBEAP Tools", "Fedora",
+               "Fedora Rawhide", "CentOS", "CentOS Linux", "EulerOS", "EulerOS V2", "Scientific Linux", "fedora", "My RHEL"]
+VERSIONS_00 = ["7.0", "22", "6.5-Beta", "RHEL-6.5", "7.2_20150101", "Rawhide", "5.11-1.2-x", "20_Alpha-TC1", "3.0.1"]
+
+
 def run(chk):
     chk.build(["Props/C05.vo"])
     CUR["version"] = ".".join(str(x) for x in OI.reflect()["VERSION"])
@@ -112,6 +118,13 @@ def run(chk):
             g = {k: v for k, v in t["general"].items() if not k.startswith(";")}
             if "-" not in g.get("variant", ""):
                 other.append({"fmt": "treeinfo", "text": DCo.render_ini({"general": g}), "pre_productmd": True})
+                # the family / version heuristics of the pre-productmd reader (reference: Model/TreeInfo00.v)
+                g2 = dict(g)
+                g2["family"] = rng.choice(FAMILIES_00)
+                g2["version"] = rng.choice(VERSIONS_00)
+                g2["name"] = "%s %s" % (g2["family"], g2["version"])
+                other.append({"fmt": "treeinfo", "text": DCo.render_ini({"general": g2}), "pre_productmd": True,
+                              "family": g2["family"], "version00": g2["version"]})
     # 4. every shipped fixture
     fx = DL.fixtures()
     allc = other + fx
@@ -133,6 +146,24 @@ def run(chk):
             if tdis <= 3:
                 chk.obligation("suite:docs_legacy:treeinfo[%d]" % tdis, False, "impl %s vs model %s" % (str(r[:2]), core.canon(m)[:200]))
     chk.obligation("suite:docs_legacy:treeinfo", tdis == 0, "" if tdis == 0 else "%d disagreements" % tdis)
+    # pre-productmd release heuristics: implementation vs reference model
+    fl = [(i, c) for i, c in enumerate(allc) if "family" in c]
+    fm = core.run_model([wire.encode_line("release_00", [c["family"], c["version00"]]) for _, c in fl])
+    fdis = 0
+    for (i, c), m in zip(fl, fm):
+        r = ores[i]
+        if r[0] != "ok":
+            chk.violation("a pre-productmd tree with family %r version %r could not be upgraded: %r" % (c["family"], c["version00"], r[:2]),
+                          {"text": c["text"]}, "docs_legacy:release_00")
+            continue
+        rel = r[3].get("release", {})
+        got = [rel.get("name"), rel.get("short"), rel.get("version")]
+        if got != m:
+            fdis += 1
+            chk.violation("pre-productmd tree, family %r version %r: upgraded to name/short/version %r, documented mapping gives %r"
+                          % (c["family"], c["version00"], got, m), {"text": c["text"]}, "docs_legacy:release_00")
+    chk.obligation("suite:docs_legacy:release_00", fdis == 0, "" if fdis == 0 else "%d disagreements" % fdis)
+    chk.record_suite("docs_legacy:release_00", {"cases": len(fl), "disagreements": fdis, "families": FAMILIES_00, "versions": VERSIONS_00})
     kinds = {}
     for c, r in zip(allc, ores):
         tag = c["fmt"] + (":fixture" if "path" in c else (":pre-productmd" if c.get("pre_productmd") else ":generated"))
